@@ -365,12 +365,226 @@ def run_dupfile(ctx, spec):
                 ctx.violate("suppression-changes-other-diagnostics:duplicate-file", "Deprecated lint is %r with %r" % ([d["level"] for d in dep], allow), replay)
 
 
+# ---------------------------------------------------------------------------------------------------------------
+# random programs with many lints and many suppressions
+
+def _entities(prog):
+    from ..slicegen.model import children
+    out = []
+
+    def walk(e, fi):
+        out.append((e, fi))
+        for ch in children(e):
+            walk(ch, fi)
+    for fi, f in enumerate(prog.files):
+        for d in f.defs:
+            walk(d, fi)
+    return out
+
+
+def make_random(rng, n):
+    """A valid model program into which lints are injected at known elements and allow attributes are scattered.
+    Returns (prog, lints, cmdline) with lints = [{"kind", "entity", "file", "marker" | "comment"}]."""
+    from ..slicegen import gen
+    from ..slicegen.model import (Alias, Attr, Comment, Enum, Enumerator, Field, Interface, Operation, Param, Struct, TypeExpr)
+    prog = gen.valid_program(random.Random(rng.random()), max_files=3, type_depth=2)
+    ents = _entities(prog)
+    lints = []
+    k = 0
+    # deprecated targets live in the first file's module and are referenced globally
+    mod0 = prog.files[0].module
+    deps = []
+
+    def dep_ref(optional=False):
+        nonlocal k
+        k += 1
+        name = "Dep%dq%d" % (n, k)
+        d = Struct(name, [Field("x", TypeExpr("prim", "bool"))], compact=True,
+                   attrs=[Attr("deprecated", rng.choice([[], ["reason %d" % k]]))])
+        deps.append(d)
+        t = TypeExpr("named", "::" + mod0 + "::" + name, optional=optional)
+        t.target = d
+        return name, t
+
+    def wrap(t):
+        r = rng.random()
+        if r < 0.6:
+            return t
+        if r < 0.8:
+            return TypeExpr("seq", args=[t])
+        if r < 0.9:
+            return TypeExpr("dict", args=[TypeExpr("prim", "string"), t])
+        return TypeExpr("result", args=[TypeExpr("prim", "bool"), t])
+
+    for e, fi in list(ents):
+        if rng.random() > 0.35:
+            continue
+        new = None
+        if isinstance(e, Struct):
+            name, t = dep_ref()
+            new = Field("zdep%d" % k, t if e.compact else wrap(t))
+            new.parent = e
+            e.fields.insert(rng.randint(0, len(e.fields)), new)
+        elif isinstance(e, Operation):
+            name, t = dep_ref()
+            if e.return_tuple and len(e.returns) >= 2 and rng.random() < 0.5:
+                new = Param("zdep%d" % k, wrap(t))
+                e.returns.insert(0, new)
+            else:
+                new = Param("zdep%d" % k, wrap(t))
+                e.params.insert(0, new)
+            new.parent = e
+        elif isinstance(e, Enumerator) and e.fields is not None:
+            name, t = dep_ref()
+            new = Field("zdep%d" % k, wrap(t))
+            new.parent = e
+            e.fields.insert(0, new)
+        if new is not None:
+            new.module = e.module
+            lints.append({"kind": "Deprecated", "entity": new, "file": fi, "marker": name})
+    # aliases of deprecated types (the alias is the element concerned)
+    for fi, f in enumerate(prog.files):
+        if rng.random() < 0.5:
+            name, t = dep_ref()
+            a = Alias("ZAlias%dq%d" % (n, k), t)
+            a.module = f.module
+            f.defs.append(a)
+            lints.append({"kind": "Deprecated", "entity": a, "file": fi, "marker": name})
+    # doc-comment lints, one comment per element, one or two lints per comment
+    for e, fi in _entities(prog):
+        if isinstance(e, Param) or e.comment is not None or rng.random() > 0.3:
+            continue
+        k += 1
+        choice = rng.choice(["broken", "broken-see", "malformed", "incorrect", "broken+incorrect"])
+        lines, kinds = [], []
+        if choice in ("broken", "broken+incorrect"):
+            lines.append(" text {@link Nope%dq%d} more" % (n, k)); kinds.append("BrokenDocLink")
+        if choice == "broken-see":
+            lines.append(" @see Nope%dq%d" % (n, k)); kinds.append("BrokenDocLink")
+        if choice == "malformed":
+            lines.append(" @unknown%dq%d foo" % (n, k)); kinds.append("MalformedDocComment")
+        if choice in ("incorrect", "broken+incorrect"):
+            # '@param' is legal on enumerators (it documents their fields), '@returns' only on operations
+            lines.append((" @param nope%dq%d: no such parameter" % (n, k)) if isinstance(e, Operation) else " @returns: nothing to return")
+            kinds.append("IncorrectDocComment")
+        cm = Comment()
+        cm.raw_lines = lines
+        e.comment = cm
+        for li, kind in enumerate(kinds):
+            lints.append({"kind": kind, "entity": e, "file": fi, "comment": cm, "line": li})
+    prog.files[0].defs = deps + prog.files[0].defs
+    for d in deps:
+        d.module = mod0
+        for fld in d.fields:
+            fld.module = mod0
+    # suppressions: anywhere
+    names = ["Deprecated", "BrokenDocLink", "IncorrectDocComment", "MalformedDocComment", "All"]
+    for e, fi in _entities(prog):
+        if isinstance(e, Param) and e.unnamed:
+            continue
+        if rng.random() < 0.18:
+            e.attrs = list(e.attrs) + [Attr("allow", rng.sample(names, rng.choice([1, 1, 2])))]
+    for f in prog.files:
+        if rng.random() < 0.2:
+            f.attrs = list(f.attrs) + [Attr("allow", rng.sample(names, rng.choice([1, 1, 2])))]
+    cmdline = rng.choice([[], [], [], ["Deprecated"], ["BrokenDocLink"], ["IncorrectDocComment", "MalformedDocComment"], ["All"], ["DuplicateFile"]])
+    return prog, lints, cmdline
+
+
+def _allows(attrs):
+    out = set()
+    for a in attrs:
+        if a.directive == "allow":
+            out.update(a.args)
+    return out
+
+
+def run_random(ctx, spec):
+    from ..slicegen import printer
+    _, count, idx = spec
+    rng = ctx.rng("rand/%d" % idx)
+    items, reqs = [], []
+    for n in range(count):
+        prog, lints, cmdline = make_random(random.Random(rng.random()), idx * 100000 + n)
+        style = rng.choice(["plain", "dense", "lines", "random"])
+        texts = printer.print_program(prog, [printer.Layout(random.Random(rng.random()), style) for _ in prog.files])
+        items.append((prog, lints, cmdline, texts))
+        reqs.append({"op": "compile", "files": texts, "allow": cmdline, "want": ["diags"]})
+    for k0 in range(0, len(reqs), 40):
+        resps = ctx.worker.batch(reqs[k0:k0 + 40])
+        for (prog, lints, cmdline, texts), r in zip(items[k0:k0 + 40], resps):
+            judge_random(ctx, prog, lints, cmdline, texts, r)
+    if items:
+        ctx.sample({"family": "random programs with many lints", "files": items[0][3], "command_line_allow": items[0][2]}, limit=1)
+
+
+def judge_random(ctx, prog, lints, cmdline, texts, r):
+    ctx.note_case(("rand", tuple(texts), tuple(cmdline)))
+    replay = {"kind": "library", "call": "compile_from_strings + into_diagnostics(options)", "files": texts, "allow": cmdline}
+    if "died" in r or r.get("panic"):
+        p = r.get("panic") or {"message": "worker " + r["died"], "location": "?"}
+        ctx.violate(core.panic_signature(p), "crashed: %s" % p, replay)
+        return
+    if r.get("has_errors"):
+        # the construction is meant to be valid; an error here is a generator problem, not a verdict on suppression
+        ctx.stats["random_programs_with_errors_skipped"] += 1
+        for d in r["diags"]:
+            if d["level"] == "error":
+                ctx.stats["random_skip_reason:" + d["code"]] += 1
+                ctx.extra.setdefault("random_skip_examples", {}).setdefault(d["code"], d["message"][:200])
+        return
+    ctx.stats["random_programs"] += 1
+    diags = [d for d in r["diags"] if d["code"] in ALL_LINTS]
+    used = set()
+    for L in lints:
+        e = L["entity"]
+        # the suppressions visible from the element: itself, every enclosing definition, its file, the command line
+        visible = set(cmdline)
+        chain = []
+        x = e
+        while x is not None:
+            chain.append(x)
+            x = x.parent
+        for x in chain:
+            visible |= _allows(x.attrs)
+        visible |= _allows(prog.files[L["file"]].attrs)
+        silenced = L["kind"] in visible or "All" in visible
+        if "marker" in L:
+            found = [i for i, d in enumerate(diags) if d["code"] == "Deprecated" and ("'%s'" % L["marker"]) in d["message"]]
+        else:
+            row = L["comment"].pos["lines"][L["line"]][0]
+            found = [i for i, d in enumerate(diags) if d["code"] == L["kind"] and d["span"] and d["span"][4] == "string-%d" % L["file"]
+                     and d["span"][0] == row]
+        where = "%s about %s %s" % (L["kind"], e.kind, e.scoped())
+        replay2 = dict(replay, lint=where, expected="silenced" if silenced else "reported as a warning",
+                       suppressions_in_scope=sorted(visible))
+        if len(found) != 1:
+            ctx.violate("random:lint-count:%s/%s" % (L["kind"], e.kind), "%s: recorded %d time(s)" % (where, len(found)), replay2)
+            return
+        used.add(found[0])
+        level = diags[found[0]]["level"]
+        ctx.stats["random_lints_judged"] += 1
+        ctx.stats["random_expected_silenced" if silenced else "random_expected_reported"] += 1
+        if silenced and level != "allowed":
+            ctx.violate("random:not-silenced:%s/%s" % (L["kind"], e.kind), "%s: a suppression in scope names it, level is %s" % (where, level), replay2)
+            return
+        if not silenced and level != "warning":
+            ctx.violate("random:silenced-out-of-scope:%s/%s" % (L["kind"], e.kind), "%s: no suppression in scope names it, level is %s"
+                        % (where, level), replay2)
+            return
+    extra = [d for i, d in enumerate(diags) if i not in used]
+    if extra:
+        ctx.violate("random:unexpected-lint:" + extra[0]["code"], "lint not injected by the generator: %r" % (extra[0],), replay)
+
+
 def run_shard(ctx, spec):
-    {"templates": run_templates, "errors": run_errors, "request": run_request, "dupfile": run_dupfile}[spec[0]](ctx, spec)
+    {"templates": run_templates, "random": run_random, "errors": run_errors, "request": run_request, "dupfile": run_dupfile}[spec[0]](ctx, spec)
 
 
 def plan(tier, seed):
-    return [("templates", i, 8) for i in range(8)] + [("errors", i, 8) for i in range(8)] + [("request", i, 8) for i in range(8)] + [("dupfile",)]
+    n = 3000 if tier == "quick" else 60000
+    return ([("templates", i, 8) for i in range(8)] + [("errors", i, 8) for i in range(8)] + [("request", i, 8) for i in range(8)] + [("dupfile",)]
+            + [("random", n // 16, i) for i in range(16)])
 
 
 def main(tier, seed):
@@ -385,9 +599,15 @@ def main(tier, seed):
               "definition, another file, -A on the command line in several letter cases) x argument (the lint, All, another lint, "
               "two lints). Each case is compared with its unsuppressed twin (level of the seeded lint, all other diagnostics, AST). "
               "Binary families: an error next to every in-scope suppression (errors and exit status unchanged), generator request "
-              "with/without. distinct_nontrivial = distinct (template, placement, argument)" % len(T)),
+              "with/without. Random family: model-generated valid programs (<= 3 files) into which Deprecated uses (new fields, "
+              "parameters, return members, enumerator fields, aliases - each naming its own deprecated type) and doc-comment lints "
+              "(one comment per element, located by file and row) are injected at known elements and allow attributes are scattered "
+              "over every kind of element, the files and the command line; every injected lint must be recorded exactly once with "
+              "the level the rule gives, and no other lint may appear. "
+              "distinct_nontrivial = distinct (template, placement, argument) + distinct random programs" % len(T)),
         required={"template_cases": 2000, "expected_silenced": 1000, "expected_reported": 400, "error_cases": 100, "request_pairs": 50,
-                  "duplicate_file_cases": 10},
+                  "duplicate_file_cases": 10,
+                  "random_programs": 2000, "random_lints_judged": 10000, "random_expected_silenced": 3000, "random_expected_reported": 3000},
         assumptions=["which -A spellings are accepted is taken from the command-line parser itself; an accepted value must be effective",
                      "the element a Deprecated lint concerns is the member / alias / interface / enum holding the reference",
                      "DuplicateFile can only be suppressed from the command line (covered by C14's binary family)"],
